@@ -6,7 +6,7 @@ import numpy as np
 import pykoop
 from .. import core, pipes, structural as st
 
-THEOREMS = ['Pk.C01.C01_roundtrip_suffix', 'Pk.C01.C01_roundtrip_ep', 'Pk.C01.C01_roundtrip_full', 'Pk.C01.C01_roundtrip_mat', 'Pk.C01.C01_leading_state',
+THEOREMS = ['Pk.C01.C01_roundtrip_suffix', 'Pk.C01.C01_roundtrip_ep', 'Pk.C01.C01_roundtrip_full', 'Pk.C01.C01_roundtrip_mat', 'Pk.C01.C01_leading_state', 'Pk.C01.intOps_lawful',
             'Pk.C01.C01_retract_len', 'Pk.C01.gain_eq_loss']
 KINDS = ['poly', 'bilinear', 'const', 'delay', 'delay', 'sk', 'angle', 'rbf', 'kernel']
 ALG = ['poly', 'bilinear', 'const', 'delay', 'delay']
